@@ -757,3 +757,297 @@ func derivedFrom(v ssa.Value, root func(ssa.Value) bool, depth int) bool {
 	}
 	return false
 }
+
+// ---------------------------------------------------------------------------------------------
+// REGION: must-held dataflow for a lock or CAS flag
+
+// Region describes acquire/release events of one lock instance inside a function.
+type Region struct {
+	Acquire func(in ssa.Instruction) bool
+	Release func(in ssa.Instruction) bool
+	// EdgeAcquire: the lock is acquired when control takes the i-th successor edge of b
+	// (true edge of `if CAS(&flag,0,1)`).
+	EdgeAcquire func(b *ssa.BasicBlock, succ int) bool
+}
+
+// heldBefore computes, for every instruction of fn, whether the lock is definitely held just
+// before it (must analysis: intersection over predecessors). entryHeld is the state at entry.
+// It also returns whether a deferred release is registered (then the lock is released at exits).
+func (p *P) heldBefore(fn *ssa.Function, rg Region, entryHeld bool) (map[ssa.Instruction]bool, map[*ssa.BasicBlock]bool) {
+	in := map[*ssa.BasicBlock]bool{}
+	out := map[*ssa.BasicBlock]bool{}
+	for _, b := range fn.Blocks {
+		in[b], out[b] = true, true // optimistic start for a must-analysis
+	}
+	in[fn.Blocks[0]] = entryHeld
+	transfer := func(b *ssa.BasicBlock, st bool) bool {
+		for _, i := range b.Instrs {
+			if _, isDefer := i.(*ssa.Defer); isDefer {
+				continue
+			}
+			if rg.Acquire != nil && rg.Acquire(i) {
+				st = true
+			}
+			if rg.Release != nil && rg.Release(i) {
+				st = false
+			}
+		}
+		return st
+	}
+	changed := true
+	for iter := 0; changed && iter < 100; iter++ {
+		changed = false
+		for _, b := range fn.Blocks {
+			st := in[b]
+			if b != fn.Blocks[0] {
+				st = true
+				if len(b.Preds) == 0 {
+					st = false
+				}
+				for _, pb := range b.Preds {
+					e := out[pb]
+					if rg.EdgeAcquire != nil {
+						for si, s := range pb.Succs {
+							if s == b && rg.EdgeAcquire(pb, si) {
+								e = true
+							}
+						}
+					}
+					st = st && e
+				}
+			}
+			o := transfer(b, st)
+			if st != in[b] || o != out[b] {
+				in[b], out[b] = st, o
+				changed = true
+			}
+		}
+	}
+	held := map[ssa.Instruction]bool{}
+	for _, b := range fn.Blocks {
+		st := in[b]
+		for _, i := range b.Instrs {
+			held[i] = st
+			if _, isDefer := i.(*ssa.Defer); isDefer {
+				continue
+			}
+			if rg.Acquire != nil && rg.Acquire(i) {
+				st = true
+			}
+			if rg.Release != nil && rg.Release(i) {
+				st = false
+			}
+		}
+	}
+	return held, out
+}
+
+// mayHeldBefore is the dual (union over predecessors): could the lock be held here?
+func (p *P) mayHeldBefore(fn *ssa.Function, rg Region) map[ssa.Instruction]bool {
+	in := map[*ssa.BasicBlock]bool{}
+	out := map[*ssa.BasicBlock]bool{}
+	step := func(i ssa.Instruction, st bool) bool {
+		if _, isDefer := i.(*ssa.Defer); isDefer {
+			return st
+		}
+		if rg.Acquire != nil && rg.Acquire(i) {
+			st = true
+		}
+		if rg.Release != nil && rg.Release(i) {
+			st = false
+		}
+		return st
+	}
+	changed := true
+	for iter := 0; changed && iter < 100; iter++ {
+		changed = false
+		for _, b := range fn.Blocks {
+			st := false
+			for _, pb := range b.Preds {
+				e := out[pb]
+				if rg.EdgeAcquire != nil {
+					for si, s := range pb.Succs {
+						if s == b && rg.EdgeAcquire(pb, si) {
+							e = true
+						}
+					}
+				}
+				st = st || e
+			}
+			o := st
+			for _, i := range b.Instrs {
+				o = step(i, o)
+			}
+			if st != in[b] || o != out[b] {
+				in[b], out[b] = st, o
+				changed = true
+			}
+		}
+	}
+	held := map[ssa.Instruction]bool{}
+	for _, b := range fn.Blocks {
+		st := in[b]
+		for _, i := range b.Instrs {
+			held[i] = st
+			st = step(i, st)
+		}
+	}
+	return held
+}
+
+// mutexRegion builds a Region for sync.Mutex/RWMutex methods on the word (e.g. "queue.Mutex").
+func (p *P) mutexRegion(word string) Region {
+	is := func(in ssa.Instruction, names ...string) bool {
+		cc := callCommon(in)
+		if cc == nil || len(cc.Args) == 0 {
+			return false
+		}
+		n := p.calleeName(cc)
+		for _, nm := range names {
+			if n == nm && wordOf(cc.Args[0]) == word {
+				return true
+			}
+		}
+		return false
+	}
+	return Region{
+		Acquire: func(in ssa.Instruction) bool {
+			return is(in, "(*sync.Mutex).Lock", "(*sync.RWMutex).Lock", "(*sync.RWMutex).RLock")
+		},
+		Release: func(in ssa.Instruction) bool {
+			return is(in, "(*sync.Mutex).Unlock", "(*sync.RWMutex).Unlock", "(*sync.RWMutex).RUnlock")
+		},
+	}
+}
+
+// deferredRelease: fn registers `defer <release>`.
+func (p *P) deferredRelease(fn *ssa.Function, rg Region) bool {
+	found := false
+	allInstrs(fn, func(in ssa.Instruction) {
+		if d, ok := in.(*ssa.Defer); ok && rg.Release(d) {
+			found = true
+		}
+	})
+	return found
+}
+
+// relOn normalises a comparison fact: if cond (with the given truth) compares a value satisfying isX
+// with a value satisfying isY, it returns the relation "X rel Y" that is known to hold ("<", "<=",
+// ">", ">=", "==", "!="), else "".
+func relOn(cond ssa.Value, truth bool, isX, isY func(ssa.Value) bool) string {
+	c, neg := stripNot(cond)
+	if neg {
+		truth = !truth
+	}
+	b, ok := c.(*ssa.BinOp)
+	if !ok {
+		return ""
+	}
+	op := ""
+	switch b.Op {
+	case token.LSS:
+		op = "<"
+	case token.LEQ:
+		op = "<="
+	case token.GTR:
+		op = ">"
+	case token.GEQ:
+		op = ">="
+	case token.EQL:
+		op = "=="
+	case token.NEQ:
+		op = "!="
+	default:
+		return ""
+	}
+	flip := map[string]string{"<": ">", "<=": ">=", ">": "<", ">=": "<=", "==": "==", "!=": "!="}
+	negate := map[string]string{"<": ">=", "<=": ">", ">": "<=", ">=": "<", "==": "!=", "!=": "=="}
+	switch {
+	case isX(b.X) && isY(b.Y):
+	case isX(b.Y) && isY(b.X):
+		op = flip[op]
+	default:
+		return ""
+	}
+	if !truth {
+		op = negate[op]
+	}
+	return op
+}
+
+// resultOf returns the i-th returned value of ret, looking through the defer-induced spill
+// (`*t0 = v; rundefers; t = *t0; return t`).
+func resultOf(ret *ssa.Return, i int) ssa.Value {
+	if i >= len(ret.Results) {
+		return nil
+	}
+	v := ret.Results[i]
+	u, ok := v.(*ssa.UnOp)
+	if !ok || u.Op != token.MUL {
+		return v
+	}
+	al, ok := u.X.(*ssa.Alloc)
+	if !ok {
+		return v
+	}
+	b := ret.Block()
+	var last ssa.Value
+	for _, in := range b.Instrs {
+		if in == ssa.Instruction(u) {
+			break
+		}
+		if st, ok := in.(*ssa.Store); ok && st.Addr == al {
+			last = st.Val
+		}
+	}
+	if last != nil {
+		return last
+	}
+	return v
+}
+
+func lastResult(ret *ssa.Return) ssa.Value {
+	if len(ret.Results) == 0 {
+		return nil
+	}
+	return resultOf(ret, len(ret.Results)-1)
+}
+
+// knownNonNilAt: v is definitely non-nil at block b (constant, constructor, or a dominating v != nil fact).
+func knownNonNilAt(v ssa.Value, b *ssa.BasicBlock) bool {
+	if v == nil {
+		return false
+	}
+	if definitelyNonNil(v) {
+		return true
+	}
+	isV := func(x ssa.Value) bool { return x == v }
+	for _, f := range factsAt(b) {
+		if relOn(f.Cond, f.Truth, isV, isNilConst) == "!=" {
+			return true
+		}
+	}
+	return false
+}
+
+// isErrorExit: the return hands back an error that is known to be non-nil.
+func isErrorExit(ret *ssa.Return) bool {
+	v := lastResult(ret)
+	if v == nil {
+		return false
+	}
+	if _, ok := v.Type().Underlying().(*types.Interface); !ok {
+		return false
+	}
+	return knownNonNilAt(v, ret.Block())
+}
+
+// edgeKnownNonNil: taking the i-th successor of b establishes v != nil.
+func edgeKnownNonNil(b *ssa.BasicBlock, i int, v ssa.Value) bool {
+	ifi := blockIf(b)
+	if ifi == nil {
+		return false
+	}
+	isV := func(x ssa.Value) bool { return x == v }
+	return relOn(ifi.Cond, i == 0, isV, isNilConst) == "!="
+}
